@@ -201,6 +201,32 @@ class SimpleVariableCollector(NodeVisitor):
         self.vars.add(node.id)
 
 
+class _DeclarationHoister(NodeTransformer):
+    """Remove global/nonlocal statements from a function's own scope.
+
+    The removed statements are collected in ``self.declarations`` so that
+    they can be placed ahead of the code ptera adds at the top of the
+    function (Python requires them to come before any use of the names).
+    """
+
+    def __init__(self):
+        self.declarations = []
+
+    def visit_Global(self, node):
+        self.declarations.append(node)
+        return ast.copy_location(ast.Pass(), node)
+
+    visit_Nonlocal = visit_Global
+
+    def _skip(self, node):
+        return node
+
+    visit_FunctionDef = _skip
+    visit_AsyncFunctionDef = _skip
+    visit_ClassDef = _skip
+    visit_Lambda = _skip
+
+
 class PteraTransformer(NodeTransformer):
     """Transform the AST of a function to instrument it with ptera.
 
@@ -568,7 +594,11 @@ class PteraTransformer(NodeTransformer):
                 wrapped_body.append(first)
                 body = body[1:]
 
-        new_body += self.visit_body(node.body)
+        hoister = _DeclarationHoister()
+        stmts = [hoister.visit(stmt) for stmt in body]
+        wrapped_body.extend(hoister.declarations)
+
+        new_body += self.visit_body(stmts)
         new_body = self.delimit(
             new_body,
             ["#enter"],
